@@ -535,7 +535,7 @@ PROPS = {
     "C03": {
         "module": "DnsModel.Theorems.C03",
         "theorems": [],
-        "families": [{"name": "iter", "quick": 3000, "thorough": 150000}],
+        "families": [{"name": "iter-boundary", "quick": 0, "thorough": 0, "fixed": True}, {"name": "iter", "quick": 3000, "thorough": 150000}],
         "oracle": oracle_c03,
         "nontrivial": nontrivial_accepted,
         "rule": "accepted packets from the structured stream (all record shapes, 4 layouts incl. chained pointers and pointers into rdata names, OPT absent/first/middle/last); "
@@ -547,7 +547,7 @@ PROPS = {
     "C04": {
         "module": "DnsModel.Theorems.C04",
         "theorems": [],
-        "families": [{"name": "summary", "quick": 3000, "thorough": 100000}],
+        "families": [{"name": "summary-boundary", "quick": 0, "thorough": 0, "fixed": True}, {"name": "summary", "quick": 3000, "thorough": 100000}],
         "oracle": oracle_c04,
         "nontrivial": nontrivial_accepted,
         "rule": "accepted packets with random flag words, OPT present/absent with random version/flags/rcode/payload, question names through pointers incl. into the header; every getter, question getters twice (cold/warm cache)",
@@ -558,7 +558,7 @@ PROPS = {
     "C05": {
         "module": "DnsModel.Theorems.C05",
         "theorems": [],
-        "families": [{"name": "uncompress", "quick": 700, "thorough": 40000}],
+        "families": [{"name": "uncompress-boundary", "quick": 0, "thorough": 0, "fixed": True}, {"name": "uncompress", "quick": 700, "thorough": 40000}],
         "oracle": oracle_c05,
         "nontrivial": lambda c, a: a.startswith("ok"),
         "rule": "accepted packets (4 layouts, OPT anywhere) x {plain decompression + second run, 3 random record boundaries, end of packet}; non-trivial = distinct successful calls",
@@ -576,7 +576,7 @@ PROPS = {
     "C07": {
         "module": "DnsModel.Theorems.C07",
         "theorems": [],
-        "families": [{"name": "rename-families", "quick": 0, "thorough": 0, "fixed": True}, {"name": "rename", "quick": 1500, "thorough": 75000}],
+        "families": [{"name": "rename-families", "quick": 0, "thorough": 0, "fixed": True}, {"name": "rename-boundary", "quick": 0, "thorough": 0, "fixed": True}, {"name": "rename", "quick": 1500, "thorough": 75000}],
         "oracle": oracle_c07,
         "nontrivial": lambda c, a: a.startswith("ok") or a.startswith("err"),
         "rule": "accepted packets (4 layouts) x 2 (target, source, mode): sources drawn from the packet's own name suffixes (matches at every depth), case variants, one-character near-misses, unrelated; targets incl. self and names that push the result past 255 bytes",
@@ -584,14 +584,14 @@ PROPS = {
     },
     "C08": {
         "module": "DnsModel.Theorems.C08", "theorems": [],
-        "families": [{"name": "script", "quick": 2500, "thorough": 100000}],
+        "families": [{"name": "script-boundary", "quick": 0, "thorough": 0, "fixed": True}, {"name": "script", "quick": 2500, "thorough": 100000}],
         "oracle": oracle_c08, "nontrivial": nontrivial_script, "shrink": False,
         "rule": "scripts of 1-6 macro operations (open/advance/act/observe/advance, header setters, text insertion, question insertion, rename, recompute, cache reads) over accepted packets in 4 layouts with/without OPT and over empty(); state observed after every operation; non-trivial = distinct scripts with at least one successful mutating operation",
         "level": "other", "explanation": "", "assumptions": [],
     },
     "C09": {
         "module": "DnsModel.Theorems.C09", "theorems": [],
-        "families": [{"name": "script", "quick": 2500, "thorough": 100000}],
+        "families": [{"name": "script-boundary", "quick": 0, "thorough": 0, "fixed": True}, {"name": "script", "quick": 2500, "thorough": 100000}],
         "oracle": oracle_c09, "nontrivial": nontrivial_script, "shrink": False,
         "rule": "same scripts as C08; after every operation the decoded message is compared with the message before plus exactly the specified change",
         "level": "other", "explanation": "", "assumptions": [],
